@@ -183,6 +183,9 @@ class VM:
         self.exception_handlers: List[Tuple[int, int, int]] = []
         # call-stack depths at which a built-in entered script code
         self._native_barriers: List[int] = []
+        # Set for code run by eval(): an uncaught exception is handed to the
+        # evaluation that called eval() instead of the host
+        self.propagate_uncaught = False
 
     def run(self, compiled: CompiledFunction) -> JSValue:
         """Run compiled bytecode and return result."""
@@ -2740,6 +2743,8 @@ class VM:
             del self.stack[stack_depth:]
             self.stack.append(exc)
         else:
+            if self.propagate_uncaught:
+                raise _ThrowSignal(exc)
             # Uncaught exception: the host sees a JSError describing the value
             if isinstance(exc, JSObject):
                 name = exc.get("name")
